@@ -160,6 +160,83 @@ def error_path_cases(rng=None):
              "adversarial": 0.0, "fail": 0.0, "tag": "error-path-%d" % i} for i, (q, v) in enumerate(ERROR_PATH_REQUESTS)]
 
 
+def mixed_field_setting(tname, fname, seed):
+    """the per-field (parent_concurrently, list_concurrently) a `mixed` configuration gives to a registered resolver"""
+    h = zlib.crc32(("%s.%s/%d" % (tname, fname, seed)).encode())
+    return [True, False, None][h % 3], [True, False, None][(h // 3) % 3]
+
+
+def cfg_coq(cfg, s=None):
+    """Coq term of a configuration; a `mixed` one carries the per-field table of the schema's registered resolvers"""
+    if "mixed" not in cfg or s is None:
+        return "(uniform_cfg %s %s)" % (coq_bool(cfg["parent"]), coq_bool(cfg["list"]))
+    prow, lrow = [], []
+    for tname, fname in sorted(s["resolvers"]):
+        pc, lc = mixed_field_setting(tname, fname, cfg["mixed"])
+        if pc is not None:
+            prow.append("(%s, %s, %s)" % (coq_string(tname), coq_string(fname), coq_bool(pc)))
+        if lc is not None:
+            lrow.append("(%s, %s, %s)" % (coq_string(tname), coq_string(fname), coq_bool(lc)))
+    look = ("fun t f => match find (fun x => String.eqb (fst (fst x)) t && String.eqb (snd (fst x)) f)%%bool %s with "
+            "Some x => Some (snd x) | None => None end")
+    return "{| parent_concurrently := %s; list_concurrently := %s; field_parent := %s; field_list := %s |}" % (
+        coq_bool(cfg["parent"]), coq_bool(cfg["list"]), look % coq_list(prow), look % coq_list(lrow))
+
+
+def hand_abstract_schema():
+    """Hand-written schema with the abstract-type shapes the properties single out: an interface with two
+    implementers sharing a composite field, a union, the same field name + abstract type on several parents with
+    DIFFERENT kinds of type resolver, non-null items and fields."""
+    types = OrderedDict()
+    types["Info"] = {"kind": "OBJECT", "interfaces": [], "fields": [
+        {"name": "x", "type": N("Int"), "args": []}, {"name": "y", "type": N("Int"), "args": []},
+        {"name": "deep", "type": N("Info"), "args": []}, {"name": "must", "type": NN(N("Int")), "args": []}]}
+    named = [{"name": "name", "type": N("String"), "args": []}, {"name": "info", "type": N("Info"), "args": []},
+             {"name": "sh", "type": L(N("Named")), "args": []}]
+    types["Named"] = {"kind": "INTERFACE", "fields": [dict(f) for f in named]}
+    types["A"] = {"kind": "OBJECT", "interfaces": ["Named"], "fields": [dict(f) for f in named] + [
+        {"name": "a", "type": N("Int"), "args": []}]}
+    types["B"] = {"kind": "OBJECT", "interfaces": ["Named"], "fields": [dict(f) for f in named] + [
+        {"name": "b", "type": N("Int"), "args": []}, {"name": "strict", "type": NN(N("Info")), "args": []}]}
+    types["AB"] = {"kind": "UNION", "members": ["A", "B"]}
+    types["Query"] = {"kind": "OBJECT", "interfaces": [], "fields": [
+        {"name": "items", "type": L(N("Named")), "args": []}, {"name": "one", "type": N("Named"), "args": []},
+        {"name": "ab", "type": L(NN(N("AB"))), "args": []}, {"name": "sh", "type": L(N("Named")), "args": []},
+        {"name": "plain", "type": N("Info"), "args": []}, {"name": "strictItems", "type": L(NN(N("Named"))), "args": []}]}
+    s = {"types": types, "query": "Query", "mutation": None, "subscription": None}
+    s["resolvers"] = {("Query", f["name"]) for f in types["Query"]["fields"]} | {("A", "sh"), ("B", "sh"), ("B", "info"),
+                                                                               ("Info", "deep")}
+    s["type_resolvers"] = {"AB"}
+    s["field_type_resolvers"] = {("A", "sh"), ("Query", "sh")}
+    return s
+
+
+HAND_ABSTRACT_QUERIES = [
+    # a field selected unconditionally AND below a type condition with another sub-selection (heterogeneous list)
+    ("{ items { info { x } ... on B { info { y } } name } }", {}),
+    ("{ items { ... on A { info { x } } ... on B { info { y deep { x } } } info { deep { y } } } }", {}),
+    ("{ strictItems { info { must } ... on A { info { x } a } ... on B { strict { must } info { y } } } }", {}),
+    # @include written before @skip, on fields, aliases and a spread
+    ("query ($t: Boolean!, $f: Boolean!) { items { name @include(if: $t) @skip(if: $t) n2: name @skip(if: $f) @include(if: $t) "
+     "...F @include(if: $t) @skip(if: $t) ... @include(if: $t) @skip(if: $f) { info { y } } } } fragment F on Named { info { x } }",
+     {"t": True, "f": False}),
+    # the same field name + abstract type on several parents, different kinds of type resolver
+    ("{ items { sh { __typename name } } sh { __typename name ... on A { a } } one { sh { __typename ... on B { b } } } }", {}),
+    ("{ ab { __typename ... on A { a sh { __typename } } ... on B { b strict { x must } } } }", {}),
+    ("{ one { ...G ...G name } } fragment G on Named { name info { x ...H } } fragment H on Info { y }", {}),
+    ("{ p: plain { x } p: plain { y } plain { k: x k2: x deep { must } } }", {}),
+]
+
+
+def hand_abstract_cases(rng, n_seeds=3):
+    out = []
+    for q, v in HAND_ABSTRACT_QUERIES:
+        for _ in range(n_seeds):
+            out.append({"query": q, "variables": dict(v), "opname": None, "kind": "query",
+                        "oracle_seed": rng.randrange(1 << 30), "root": None, "adversarial": 0.0, "fail": 0.0})
+    return out
+
+
 def possible_types(s, name):
     d = s["types"][name]
     if d["kind"] == "UNION":
@@ -274,6 +351,18 @@ class DocGen:
                     sels.append("...%s%s" % (self.fragments[i][0], self.directives()))
                     if rng.random() < 0.25:
                         sels.append("...%s" % self.fragments[i][0])       # same fragment spread twice
+        # a field of an interface selected unconditionally AND again below a type condition, with another
+        # sub-selection: the merged node list of the response key then depends on the runtime type of each object
+        if d["kind"] == "INTERFACE" and flds and rng.random() < 0.5:
+            noarg = [f for f in flds if not f.get("args")]
+            impls = possible_types(s, tname)
+            if noarg and impls:
+                comp = [f for f in noarg if s["types"].get(named_of(f["type"]), {"kind": "SCALAR"})["kind"]
+                        in ("OBJECT", "INTERFACE", "UNION")]
+                f = rng.choice(comp or noarg)
+                sels.insert(rng.randrange(len(sels) + 1), self.field(f, depth, alias=False))
+                for o in rng.sample(impls, min(len(impls), rng.choice([1, 1, 2]))):
+                    sels.insert(rng.randrange(len(sels) + 1), "... on %s { %s }" % (o, self.field(f, depth + 1, alias=False)))
         # repeated response key with a (possibly different) sub-selection: must stay mergeable
         if chosen_fields and rng.random() < 0.35:
             f = rng.choice(chosen_fields)
@@ -610,6 +699,9 @@ async def build_engine(s, schema_name, oracle_ref, rec, cfg=None, sdl=None):
     def mk(tname, f):
         fname, ftype = f["name"], f["type"]
         kw = dict(schema_name=schema_name, parent_concurrently=cfg["parent"], list_concurrently=cfg["list"])
+        if "mixed" in cfg:
+            # per-field settings: the siblings of one selection set MIX concurrent, sequential and "engine default"
+            kw["parent_concurrently"], kw["list_concurrently"] = mixed_field_setting(tname, fname, cfg["mixed"])
         if cfg.get("args") == "sync":
             from tartiflette.resolver.default import sync_arguments_coercer
             kw["arguments_coercer"] = sync_arguments_coercer
@@ -668,6 +760,8 @@ async def build_engine(s, schema_name, oracle_ref, rec, cfg=None, sdl=None):
         @Scalar("Odd", schema_name=schema_name)
         class OddScalar:
             def coerce_output(self, v):
+                if isinstance(v, int) and not isinstance(v, bool) and v == 99:
+                    return None              # a null produced DURING result coercion (99 is this scalar's "no value")
                 if isinstance(v, int) and not isinstance(v, bool) and v % 2 == 1:
                     return v
                 raise ValueError("not odd")
